@@ -22,6 +22,11 @@ def BelowPVx (c : Core) (h : Height) (r : Round) : Prop :=
 def BelowPCx (c : Core) (h : Height) (r : Round) : Prop :=
   h < c.height ∨ (h = c.height ∧ c.started = true ∧ (r < c.round ∨ (r = c.round ∧ c.step = .precommit)))
 
+/-- no restriction on the messages handed to the machine -/
+def AnyMsg : VCChange → Prop := fun _ => True
+
+variable {A : VCChange → Prop}
+
 structure TInv (m : Machine) (log : List Action) : Prop where
   pv : ∀ s ∈ pvSlots log, BelowPVx m.core s.1 s.2
   pc : ∀ s ∈ pcSlots log, BelowPCx m.core s.1 s.2
@@ -61,13 +66,15 @@ theorem TInv_move (m m' : Machine) (log acts : List Action)
   · rw [pcSlots_append, hs.2, List.append_nil]; exact hi.pcN
 
 theorem micro_TInv (env : Env) (m m' : Machine) (a log : List Action)
-    (hm : XMicro env m a m') (sc : SC m m') (hi : TInv m log) : TInv m' (log ++ a) := by
+    (hm : XMicro env A m a m') (sc : SC m m') (hi : TInv m log) : TInv m' (log ++ a) := by
   cases hm with
-  | silent _ _ hc _ hs =>
+  | silent _ _ hc _ _ hs =>
     exact TInv_move m m' log a (slots_silent a hs) (by rw [hc]; intros; assumption) (by rw [hc]; intros; assumption) hi
-  | propose _ p hc _ _ _ _ =>
+  | recv _ c _ hc _ _ =>
     exact TInv_move m m' log _ ⟨rfl, rfl⟩ (by rw [hc]; intros; assumption) (by rw [hc]; intros; assumption) hi
-  | start _ r hs _ hc =>
+  | propose _ p hc _ _ _ _ _ =>
+    exact TInv_move m m' log _ ⟨rfl, rfl⟩ (by rw [hc]; intros; assumption) (by rw [hc]; intros; assumption) hi
+  | start _ r hs _ _ _ hc =>
     have hst : m.core.started = false := hs
     refine TInv_move m m' log [] ⟨rfl, rfl⟩ ?_ ?_ hi
     · intro h r0 hb; rw [hc]
@@ -78,7 +85,7 @@ theorem micro_TInv (env : Env) (m m' : Machine) (a log : List Action)
       rcases hb with a | ⟨_, b, _⟩
       · exact Or.inl a
       · rw [hst] at b; cases b
-  | newRound _ r hlt _ hc =>
+  | newRound _ r hlt _ _ hc =>
     have hr : m.core.round < r := hlt
     refine TInv_move m m' log [] ⟨rfl, rfl⟩ ?_ ?_ hi
     · intro h r0 hb; rw [hc]
@@ -93,7 +100,7 @@ theorem micro_TInv (env : Env) (m m' : Machine) (a log : List Action)
       · refine Or.inr ⟨a, b, Or.inl ?_⟩
         show r0 < r
         rcases c with c | ⟨c, _⟩ <;> omega
-  | prevote _ id hst _ _ hc =>
+  | prevote _ id hst _ _ _ hc =>
     have hstep : m.core.step = .propose := hst
     have hstarted : m.core.started = true := by
       rcases sc with h | h | h
@@ -137,7 +144,7 @@ theorem micro_TInv (env : Env) (m m' : Machine) (a log : List Action)
     · rw [pcSlots_append]
       simp only [pcSlots, pcSlot, List.filterMap_cons, List.filterMap_nil, List.append_nil]
       exact hi.pcN
-  | precommitNil _ hst _ hc =>
+  | precommitNil _ hst _ _ hc =>
     have hstep : m.core.step = .prevote := hst
     have hstarted : m.core.started = true := by
       rcases sc with h | h | h
@@ -181,7 +188,7 @@ theorem micro_TInv (env : Env) (m m' : Machine) (a log : List Action)
       simp only [pcSlots, pcSlot, List.filterMap_cons, List.filterMap_nil]
       exact List.nodup_append.mpr ⟨hi.pcN, by simp, by
         intro x hx y hy; simp at hy; subst hy; intro e; subst e; exact hfresh hx⟩
-  | precommitValue _ v hst _ _ _ hc =>
+  | precommitValue _ v hst _ _ _ _ hc =>
     have hstep : m.core.step = .prevote := hst
     have hstarted : m.core.started = true := by
       rcases sc with h | h | h
@@ -225,7 +232,7 @@ theorem micro_TInv (env : Env) (m m' : Machine) (a log : List Action)
       simp only [pcSlots, pcSlot, List.filterMap_cons, List.filterMap_nil]
       exact List.nodup_append.mpr ⟨hi.pcN, by simp, by
         intro x hx y hy; simp at hy; subst hy; intro e; subst e; exact hfresh hx⟩
-  | commit _ p _ _ _ _ _ _ hc =>
+  | commit _ p _ _ _ _ _ _ _ hc =>
     refine TInv_move m m' log _ ⟨rfl, rfl⟩ ?_ ?_ hi
     · intro h r0 hb; rw [hc]
       rcases hb with a | ⟨a, _, _⟩
@@ -236,14 +243,14 @@ theorem micro_TInv (env : Env) (m m' : Machine) (a log : List Action)
       · exact Or.inl (Nat.lt_succ_of_lt a)
       · exact Or.inl (by show h < m.state.height + 1; have : m.core.height = m.state.height := rfl; omega)
 
-theorem chain_TInv (env : Env) (m m' : Machine) (acts : List Action) (hc : XChain env m acts m') :
+theorem chain_TInv (env : Env) (m m' : Machine) (acts : List Action) (hc : XChain env A m acts m') :
     ∀ log, TInv m log → TInv m' (log ++ acts) := by
   induction hc with
   | nil => intro log hi; simpa using hi
   | cons hm sc _ ih =>
     intro log hi
     rw [← List.append_assoc]
-    exact ih _ (micro_TInv env _ _ _ _ hm sc hi)
+    exact ih _ (micro_TInv (A := A) env _ _ _ _ hm sc hi)
 
 /-- A run obeys the driver's discipline if every timeout is delivered to a started height. -/
 def Disciplined (env : Env) : Machine → List Input → Prop
@@ -251,14 +258,14 @@ def Disciplined (env : Env) : Machine → List Input → Prop
   | m, i :: rest => InputOK m i ∧ Disciplined env (m.step env i).1 rest
 
 /-- **A disciplined run is a chain of micro-steps.** -/
-theorem run_chain (env : Env) : ∀ (ins : List Input) (m : Machine), MInv env m → Disciplined env m ins →
-    XChain env m (m.run env ins).2 (m.run env ins).1 ∧ MInv env (m.run env ins).1 := by
+theorem run_chain (env : Env) (hA : ∀ c, A c) : ∀ (ins : List Input) (m : Machine), MInv env m → Disciplined env m ins →
+    XChain env A m (m.run env ins).2 (m.run env ins).1 ∧ MInv env (m.run env ins).1 := by
   intro ins
   induction ins with
   | nil => intro m hi _; exact ⟨XChain.nil m, hi⟩
   | cons i rest ih =>
     intro m hi hd
-    have h1 := step_chain env m i hd.1 hi
+    have h1 := step_chain (A := A) env m i (fun c _ => hA c) hd.1 hi
     have h2 := ih (m.step env i).1 h1.2 hd.2
     simp only [Machine.run]
     exact ⟨XChain.append h1.1 h2.1, h2.2⟩
@@ -270,16 +277,16 @@ theorem run_no_double_vote (env : Env) (node : Addr) (h0 : Height) (ins : List I
     (hd : Disciplined env (Machine.new env node h0) ins) :
     (pvSlots ((Machine.new env node h0).run env ins).2).Nodup ∧
     (pcSlots ((Machine.new env node h0).run env ins).2).Nodup := by
-  have hc := run_chain env ins _ (new_MInv env node h0) hd
-  have := chain_TInv env _ _ _ hc.1 [] (TInv_new env node h0)
+  have hc := run_chain (A := AnyMsg) env (fun _ => trivial) ins _ (new_MInv env node h0) hd
+  have := chain_TInv (A := AnyMsg) env _ _ _ hc.1 [] (TInv_new env node h0)
   simp only [List.nil_append] at this
   exact ⟨this.pvN, this.pcN⟩
 
 /-- every action of a chain is emitted by one of its micro-steps; the chain splits around it -/
-theorem chain_split (env : Env) (m m' : Machine) (acts : List Action) (hc : XChain env m acts m')
+theorem chain_split (env : Env) (m m' : Machine) (acts : List Action) (hc : XChain env A m acts m')
     (a : Action) (ha : a ∈ acts) :
-    ∃ pre mic post m1 m2, XChain env m pre m1 ∧ XMicro env m1 mic m2 ∧ SC m1 m2 ∧ a ∈ mic ∧
-      XChain env m2 post m' ∧ acts = pre ++ mic ++ post := by
+    ∃ pre mic post m1 m2, XChain env A m pre m1 ∧ XMicro env A m1 mic m2 ∧ SC m1 m2 ∧ a ∈ mic ∧
+      XChain env A m2 post m' ∧ acts = pre ++ mic ++ post := by
   induction hc with
   | nil => cases ha
   | @cons m0 m1 m2 mic as hm sc htail ih =>
@@ -290,59 +297,62 @@ theorem chain_split (env : Env) (m m' : Machine) (acts : List Action) (hc : XCha
       rw [h6]; simp
 
 /-- a prevote action can only come from a `prevote` micro-step -/
-theorem micro_prevote (env : Env) (m m' : Machine) (mic : List Action) (hm : XMicro env m mic m')
+theorem micro_prevote (env : Env) (m m' : Machine) (mic : List Action) (hm : XMicro env A m mic m')
     (v : Vote) (hv : Action.bcastPrevote v ∈ mic) :
     v = ⟨m.state.height, m.state.round, m.nodeAddr, v.id⟩ ∧ m.state.step = .propose ∧
       PrevoteGuardX env m v.id := by
   cases hm with
-  | silent _ _ _ _ hs => exact (hs _ hv).elim
-  | propose _ p _ _ _ _ _ => simp at hv
-  | start _ r _ _ _ => cases hv
-  | newRound _ r _ _ _ => cases hv
-  | prevote _ id hst hg _ _ =>
+  | silent _ _ _ _ _ hs => exact (hs _ hv).elim
+  | recv _ c _ _ _ _ => cases hv
+  | propose _ p _ _ _ _ _ _ => simp at hv
+  | start _ r _ _ _ _ _ => cases hv
+  | newRound _ r _ _ _ _ => cases hv
+  | prevote _ id hst hg _ _ _ =>
     simp at hv; subst hv; exact ⟨rfl, hst, hg⟩
-  | precommitNil _ _ _ _ => simp at hv
-  | precommitValue _ w _ _ _ _ _ => simp at hv
-  | commit _ p _ _ _ _ _ _ _ => simp at hv
+  | precommitNil _ _ _ _ _ => simp at hv
+  | precommitValue _ w _ _ _ _ _ _ => simp at hv
+  | commit _ p _ _ _ _ _ _ _ _ => simp at hv
 
-theorem micro_precommit (env : Env) (m m' : Machine) (mic : List Action) (hm : XMicro env m mic m')
+theorem micro_precommit (env : Env) (m m' : Machine) (mic : List Action) (hm : XMicro env A m mic m')
     (v : Vote) (hv : Action.bcastPrecommit v ∈ mic) :
     v = ⟨m.state.height, m.state.round, m.nodeAddr, v.id⟩ ∧ m.state.step = .prevote ∧
       (∀ w, v.id = some w → (∃ p, m.vc.getProposal m.state.round = some p ∧ p.value = w ∧ env.valid w = true) ∧
         m.vc.hasQuorumForVote m.state.round .prevote (some w) = true ∧
         m'.state.lockedValue = some w ∧ m'.state.lockedRound = m.state.round) := by
   cases hm with
-  | silent _ _ _ _ hs => exact (hs _ hv).elim
-  | propose _ p _ _ _ _ _ => simp at hv
-  | start _ r _ _ _ => cases hv
-  | newRound _ r _ _ _ => cases hv
-  | prevote _ id _ _ _ _ => simp at hv
-  | precommitNil _ hst _ _ =>
+  | silent _ _ _ _ _ hs => exact (hs _ hv).elim
+  | recv _ c _ _ _ _ => cases hv
+  | propose _ p _ _ _ _ _ _ => simp at hv
+  | start _ r _ _ _ _ _ => cases hv
+  | newRound _ r _ _ _ _ => cases hv
+  | prevote _ id _ _ _ _ _ => simp at hv
+  | precommitNil _ hst _ _ _ =>
     simp at hv; subst hv; exact ⟨rfl, hst, fun w hw => by cases hw⟩
-  | precommitValue _ w hst hp hq _ hc =>
+  | precommitValue _ w hst hp hq _ _ hc =>
     simp at hv; subst hv
     refine ⟨rfl, hst, fun w' hw => ?_⟩
     cases hw
     have h1 : m'.core.lockedValue = some w := by rw [hc]
     have h2 : m'.core.lockedRound = m.state.round := by rw [hc]
     exact ⟨hp, hq, h1, h2⟩
-  | commit _ p _ _ _ _ _ _ _ => simp at hv
+  | commit _ p _ _ _ _ _ _ _ _ => simp at hv
 
-theorem micro_commit (env : Env) (m m' : Machine) (mic : List Action) (hm : XMicro env m mic m')
+theorem micro_commit (env : Env) (m m' : Machine) (mic : List Action) (hm : XMicro env A m mic m')
     (p : Proposal) (hv : Action.commit p ∈ mic) :
     m.vc.getProposal p.round = some p ∧ env.valid p.value = true ∧
       m.vc.hasQuorumForVote p.round .precommit (some p.value) = true ∧
       p.height = m.state.height ∧ p.sender = env.proposer p.height p.round ∧
       m'.state.height = m.state.height + 1 := by
   cases hm with
-  | silent _ _ _ _ hs => exact (hs _ hv).elim
-  | propose _ q _ _ _ _ _ => simp at hv
-  | start _ r _ _ _ => cases hv
-  | newRound _ r _ _ _ => cases hv
-  | prevote _ id _ _ _ _ => simp at hv
-  | precommitNil _ _ _ _ => simp at hv
-  | precommitValue _ w _ _ _ _ _ => simp at hv
-  | commit _ q h1 h2 h3 h4 h5 _ hc =>
+  | silent _ _ _ _ _ hs => exact (hs _ hv).elim
+  | recv _ c _ _ _ _ => cases hv
+  | propose _ q _ _ _ _ _ _ => simp at hv
+  | start _ r _ _ _ _ _ => cases hv
+  | newRound _ r _ _ _ _ => cases hv
+  | prevote _ id _ _ _ _ _ => simp at hv
+  | precommitNil _ _ _ _ _ => simp at hv
+  | precommitValue _ w _ _ _ _ _ _ => simp at hv
+  | commit _ q h1 h2 h3 h4 h5 _ _ hc =>
     simp at hv; subst hv
     have : m'.core.height = m.state.height + 1 := by rw [hc]
     exact ⟨h1, h2, h3, h4, h5, this⟩
@@ -352,16 +362,16 @@ theorem micro_commit (env : Env) (m m' : Machine) (mic : List Action) (hm : XMic
 /-- Action `a` of a run from `m0` to `mf` with output `acts` was emitted by a micro-step taken in
 machine state `m1` (the state at the moment of emission), leading to `m2`. -/
 def EmittedAt (env : Env) (m0 mf : Machine) (acts : List Action) (a : Action) (m1 m2 : Machine) : Prop :=
-  ∃ pre mic post, XChain env m0 pre m1 ∧ XMicro env m1 mic m2 ∧ SC m1 m2 ∧ a ∈ mic ∧
-    XChain env m2 post mf ∧ acts = pre ++ mic ++ post
+  ∃ pre mic post, XChain env AnyMsg m0 pre m1 ∧ XMicro env AnyMsg m1 mic m2 ∧ SC m1 m2 ∧ a ∈ mic ∧
+    XChain env AnyMsg m2 post mf ∧ acts = pre ++ mic ++ post
 
 theorem run_emitted (env : Env) (node : Addr) (h0 : Height) (ins : List Input)
     (hd : Disciplined env (Machine.new env node h0) ins) (a : Action)
     (ha : a ∈ ((Machine.new env node h0).run env ins).2) :
     ∃ m1 m2, EmittedAt env (Machine.new env node h0) ((Machine.new env node h0).run env ins).1
       ((Machine.new env node h0).run env ins).2 a m1 m2 := by
-  have hc := run_chain env ins _ (new_MInv env node h0) hd
-  obtain ⟨pre, mic, post, m1, m2, h1, h2, h3, h4, h5, h6⟩ := chain_split env _ _ _ hc.1 a ha
+  have hc := run_chain (A := AnyMsg) env (fun _ => trivial) ins _ (new_MInv env node h0) hd
+  obtain ⟨pre, mic, post, m1, m2, h1, h2, h3, h4, h5, h6⟩ := chain_split (A := AnyMsg) env _ _ _ hc.1 a ha
   exact ⟨m1, m2, pre, mic, post, h1, h2, h3, h4, h5, h6⟩
 
 /-! ### the discipline is needed: concrete runs of the model without it -/
